@@ -15,6 +15,8 @@ pub struct CodeM {
     pub checksum: Vec<u8>,
     pub code_tag: u32,
     pub lifted: bool,
+    /// optional entry points the code has: (reply, sudo, migrate)
+    pub entry_points: (bool, bool, bool),
 }
 
 #[derive(Clone, Debug, PartialEq)]
@@ -38,6 +40,7 @@ pub struct ChainM {
     pub st: State,
     pub codes: BTreeMap<u64, CodeM>,
     pub block: (u64, u64, String),
+    pub api: ApiKind,
 }
 
 #[derive(Clone, Debug, PartialEq)]
@@ -58,6 +61,8 @@ pub enum Why {
     EmptyLabel,
     NoSuchCode,
     NotAdmin,
+    /// the contract's code has no such entry point
+    NoEntryPoint,
     BadSalt,
     CustomFailed,
 }
@@ -75,11 +80,53 @@ pub struct Out {
     pub created: Vec<String>,
     pub data_cases: Vec<&'static str>,
     pub attr_strings: u64,
+    /// coverage notes (e.g. an alternative address spelling accepted by the codec)
+    pub notes: Vec<&'static str>,
 }
 
-pub fn valid_addr(s: &str) -> bool {
-    // the chain's address codec is cosmwasm_std's MockApi (a dependency, not the code under test)
-    MockApi::default().addr_validate(s).map(|a| a.as_str() == s).unwrap_or(false)
+/// The address codec the chain is built with. `Std` is cosmwasm_std's MockApi (a dependency, not the code under
+/// test), which accepts only the canonical spelling; the crate's own bech32 codecs accept every string that decodes
+/// under the prefix and normalise it (C18 decides the codec itself; here a reference on the bech32 crate suffices).
+#[derive(Clone, Copy, Debug, PartialEq, Eq, Default, serde::Serialize, serde::Deserialize)]
+pub enum ApiKind {
+    #[default]
+    Std,
+    Bech32,
+    Bech32m,
+}
+
+pub const PREFIX: &str = "cosmwasm";
+
+impl ApiKind {
+    pub fn canonicalize(&self, s: &str) -> Option<Vec<u8>> {
+        use bech32::primitives::decode::CheckedHrpstring;
+        match self {
+            ApiKind::Std => MockApi::default().addr_canonicalize(s).ok().map(|c| c.to_vec()),
+            ApiKind::Bech32 => CheckedHrpstring::new::<bech32::Bech32>(s).ok().filter(|h| h.hrp().to_string() == PREFIX).map(|h| h.byte_iter().collect()),
+            ApiKind::Bech32m => CheckedHrpstring::new::<bech32::Bech32m>(s).ok().filter(|h| h.hrp().to_string() == PREFIX).map(|h| h.byte_iter().collect()),
+        }
+    }
+
+    pub fn humanize(&self, canon: &[u8]) -> Option<String> {
+        let hrp = bech32::Hrp::parse(PREFIX).unwrap();
+        match self {
+            ApiKind::Std => MockApi::default().addr_humanize(&canon.to_vec().into()).ok().map(|a| a.to_string()),
+            ApiKind::Bech32 => bech32::encode::<bech32::Bech32>(hrp, canon).ok(),
+            ApiKind::Bech32m => bech32::encode::<bech32::Bech32m>(hrp, canon).ok(),
+        }
+    }
+
+    /// What `addr_validate` answers: the normalised spelling, or None if rejected.
+    pub fn norm(&self, s: &str) -> Option<String> {
+        match self {
+            ApiKind::Std => MockApi::default().addr_validate(s).ok().filter(|a| a.as_str() == s).map(|a| a.to_string()),
+            _ => self.humanize(&self.canonicalize(s)?),
+        }
+    }
+
+    pub fn addr_make(&self, name: &str) -> String {
+        self.humanize(&Sha256::digest(name.as_bytes())).unwrap()
+    }
 }
 
 fn to_coins(c: &[Coin]) -> Coins {
@@ -147,7 +194,7 @@ pub fn wrap_instantiate(addr: &str, data: Option<Vec<u8>>) -> Vec<u8> {
 
 // --- addresses -------------------------------------------------------------------------------------
 
-pub fn classic_address(code_id: u64, instance: u64) -> String {
+pub fn classic_address(api: ApiKind, code_id: u64, instance: u64) -> String {
     let mut key = b"wasm\0".to_vec();
     key.extend_from_slice(&code_id.to_be_bytes());
     key.extend_from_slice(&instance.to_be_bytes());
@@ -156,14 +203,13 @@ pub fn classic_address(code_id: u64, instance: u64) -> String {
     h.update(module);
     h.update(&key);
     let canon = h.finalize().to_vec();
-    MockApi::default().addr_humanize(&canon.into()).unwrap().to_string()
+    api.humanize(&canon).unwrap()
 }
 
-pub fn salted_address(checksum: &[u8], creator: &str, salt: &[u8]) -> Option<String> {
-    let api = MockApi::default();
-    let canon = api.addr_canonicalize(creator).ok()?;
-    let a = cosmwasm_std::instantiate2_address(checksum, &canon, salt).ok()?;
-    Some(api.addr_humanize(&a).ok()?.to_string())
+pub fn salted_address(api: ApiKind, checksum: &[u8], creator: &str, salt: &[u8]) -> Option<String> {
+    let canon = api.canonicalize(creator)?;
+    let a = cosmwasm_std::instantiate2_address(checksum, &canon.into(), salt).ok()?;
+    api.humanize(a.as_slice())
 }
 
 pub fn default_checksum(code_id: u64) -> Vec<u8> {
@@ -178,7 +224,7 @@ fn ok_str<T: std::fmt::Debug>(v: T) -> String {
 
 impl ChainM {
     pub fn new(block: (u64, u64, String)) -> Self {
-        ChainM { st: State { bank: Ledger::default(), contracts: BTreeMap::new() }, codes: BTreeMap::new(), block }
+        ChainM { st: State { bank: Ledger::default(), contracts: BTreeMap::new() }, codes: BTreeMap::new(), block, api: ApiKind::Std }
     }
 
     pub fn next_code_id(&self) -> u64 {
@@ -189,38 +235,43 @@ impl ChainM {
         let hexs = crate::core::hex;
         match p {
             Probe::Balance { addr, denom } => {
-                if !valid_addr(addr) {
-                    return "err".into();
-                }
+                let addr = &match self.api.norm(addr) {
+                    Some(a) => a,
+                    None => return "err".into(),
+                };
                 ok_str((denom.clone(), self.st.bank.bal(addr, denom)))
             }
             Probe::AllBalances { addr } => {
-                if !valid_addr(addr) {
-                    return "err".into();
-                }
+                let addr = &match self.api.norm(addr) {
+                    Some(a) => a,
+                    None => return "err".into(),
+                };
                 ok_str(self.st.bank.all(addr))
             }
             Probe::Supply { denom } => ok_str((denom.clone(), self.st.bank.supply(denom))),
             Probe::WasmRaw { addr, key } => {
-                if !valid_addr(addr) {
-                    return "err".into();
-                }
+                let addr = &match self.api.norm(addr) {
+                    Some(a) => a,
+                    None => return "err".into(),
+                };
                 let v = self.st.contracts.get(addr).and_then(|c| c.storage.get(key.as_slice())).map(|v| hexs(v));
                 ok_str(v)
             }
             Probe::WasmSmart { addr } => {
-                if !valid_addr(addr) {
-                    return "err".into();
-                }
+                let addr = &match self.api.norm(addr) {
+                    Some(a) => a,
+                    None => return "err".into(),
+                };
                 match self.st.contracts.get(addr) {
                     Some(c) if self.codes.contains_key(&c.code_id) => ok_str((self.codes[&c.code_id].code_tag, c.storage.iter().map(|(k, v)| format!("{}={}", hexs(k), hexs(v))).collect::<Vec<_>>())),
                     _ => "err".into(),
                 }
             }
             Probe::ContractInfo { addr } => {
-                if !valid_addr(addr) {
-                    return "err".into();
-                }
+                let addr = &match self.api.norm(addr) {
+                    Some(a) => a,
+                    None => return "err".into(),
+                };
                 match self.st.contracts.get(addr) {
                     Some(c) => ok_str((c.code_id, c.creator.clone(), c.admin.clone())),
                     None => "err".into(),
@@ -285,9 +336,10 @@ impl ChainM {
     }
 
     pub fn mint_top(&mut self, to: &str, coins: &[Coin]) -> Result<Resp, Why> {
-        if !valid_addr(to) {
-            return Err(Why::InvalidAddress);
-        }
+        let to = &match self.api.norm(to) {
+            Some(a) => a,
+            None => return Err(Why::InvalidAddress),
+        };
         if !self.st.bank.mint(to, &to_coins(coins)) {
             return Err(Why::NoPositiveAmount);
         }
@@ -332,8 +384,13 @@ impl ChainM {
                 Ok(custom_exec_answer(sender, *tag))
             }
             Msg::Exec { addr, script, funds } => {
-                if !valid_addr(addr) {
-                    return Err(Why::InvalidAddress);
+                let given = addr;
+                let addr = &match self.api.norm(addr) {
+                    Some(a) => a,
+                    None => return Err(Why::InvalidAddress),
+                };
+                if addr != given {
+                    out.notes.push(if funds.is_empty() { "alt-spelling-accepted/execute" } else { "alt-spelling-accepted/execute-with-funds" });
                 }
                 if !funds.is_empty() {
                     let c = to_coins(funds);
@@ -354,8 +411,8 @@ impl ChainM {
                     None => return Err(Why::NoSuchCode),
                 };
                 let addr = match salt {
-                    None => classic_address(*code_id, self.st.contracts.len() as u64),
-                    Some(s) => match salted_address(&code.checksum, sender, s.as_slice()) {
+                    None => classic_address(self.api, *code_id, self.st.contracts.len() as u64),
+                    Some(s) => match salted_address(self.api, &code.checksum, sender, s.as_slice()) {
                         Some(a) => a,
                         None => return Err(Why::BadSalt),
                     },
@@ -379,8 +436,13 @@ impl ChainM {
                 Ok(Resp { events: r.events, data: Some(wrap_instantiate(&addr, r.data)) })
             }
             Msg::Migrate { addr, code_id, script } => {
-                if !valid_addr(addr) {
-                    return Err(Why::InvalidAddress);
+                let given = addr;
+                let addr = &match self.api.norm(addr) {
+                    Some(a) => a,
+                    None => return Err(Why::InvalidAddress),
+                };
+                if addr != given {
+                    out.notes.push("alt-spelling-accepted/migrate");
                 }
                 if !self.codes.contains_key(code_id) {
                     return Err(Why::NoSuchCode);
@@ -398,21 +460,34 @@ impl ChainM {
                 out.data_cases.push(if r.data.is_some() { "migrate-data-wrapped" } else { "migrate-no-data" });
                 Ok(Resp { events: r.events, data: wrap_exec(r.data) })
             }
-            Msg::UpdateAdmin { addr, admin } => self.set_admin(sender, addr, Some(admin.clone())),
-            Msg::ClearAdmin { addr } => self.set_admin(sender, addr, None),
+            Msg::UpdateAdmin { addr, admin } => {
+                if self.api.norm(addr).map_or(false, |a| &a != addr) || self.api.norm(admin).map_or(false, |a| &a != admin) {
+                    out.notes.push("alt-spelling-accepted/update-admin");
+                }
+                self.set_admin(sender, addr, Some(admin.clone()))
+            }
+            Msg::ClearAdmin { addr } => {
+                if self.api.norm(addr).map_or(false, |a| &a != addr) {
+                    out.notes.push("alt-spelling-accepted/clear-admin");
+                }
+                self.set_admin(sender, addr, None)
+            }
             Msg::Opaque(_) => panic!("harness: opaque messages are not modelled"),
         }
     }
 
     fn set_admin(&mut self, sender: &str, addr: &str, new_admin: Option<String>) -> Result<Resp, Why> {
-        if !valid_addr(addr) {
-            return Err(Why::InvalidAddress);
-        }
-        if let Some(a) = &new_admin {
-            if !valid_addr(a) {
-                return Err(Why::InvalidAddress);
-            }
-        }
+        let addr = &match self.api.norm(addr) {
+            Some(a) => a,
+            None => return Err(Why::InvalidAddress),
+        };
+        let new_admin = match new_admin {
+            None => None,
+            Some(a) => match self.api.norm(&a) {
+                Some(a) => Some(a),
+                None => return Err(Why::InvalidAddress),
+            },
+        };
         match self.st.contracts.get_mut(addr) {
             None => Err(Why::UnknownContract),
             Some(c) => {
@@ -444,6 +519,15 @@ impl ChainM {
                 None => return Err(Why::NoSuchCode),
             },
         };
+        let supported = match kind {
+            Entry::Reply => code.entry_points.0,
+            Entry::Sudo => code.entry_points.1,
+            Entry::Migrate => code.entry_points.2,
+            _ => true,
+        };
+        if !supported {
+            return Err(Why::NoEntryPoint);
+        }
         // the contract observes the state at entry
         let me = &self.st.contracts[contract];
         let ev = TraceEv {
